@@ -70,13 +70,13 @@ def run(c):
 
     def compare(obs, tag):
         """Evaluate model and oracle inside Coq on the observed cases; returns number of disagreements."""
-        direct = [o for o in obs if o["k"] == "direct"]
+        direct = [o for o in obs if o["k"] in ("direct", "direct2")]
         engine = [o for o in obs if o["k"] in ("engine", "comment", "suggonly", "amp", "csugg")]
         three = [o for o in obs if o["k"] == "three"]
         # panics are failures of the property outright
         for o in direct:
             c.count()
-            c.nontriv((classify(o["n"], o["L"]), o["n"], o["L"]))
+            c.nontriv((o["k"], classify(o["n"], o["L"]), o["n"], o["L"]))
             if o.get("panic"):
                 c.fail("oracle", "truncateText panics", input={"n": o["n"], "maxLen": o["L"]}, observed=o["panic"],
                        expected="no TruncateLen value makes a run fail")
@@ -101,24 +101,27 @@ def run(c):
                "From RG.Engine Require Import TruncateSpec.",
                ("From RGW Require Import Gen_Truncate Gen_C15Extras." if gen_ok else ""),
                "Import ListNotations. Local Open Scope Z_scope.",
-               "Definition mk (n : nat) : bytes := map (fun i => Z.of_nat i mod 256) (seq 0 n).",
+               "Definition mk1 (n : nat) : bytes := map (fun i => Z.of_nat i mod 256) (seq 0 n).",
+               "Definition unit8 : bytes := [97; 195; 169; 228; 184; 150; 240; 159; 152; 128; 98].",
+               "Definition mk2 (n : nat) : bytes := map (fun i => nth (i mod 11) unit8 0) (seq 0 n).",
+               "Definition mk (k : Z) (n : nat) : bytes := if k =? 2 then mk2 n else mk1 n.",
                "Definition obs_eq (a : outcome bytes) (b : bytes) : bool := match a with Ok r => bytes_eqb r b | Panic _ => false end.",
                "Definition opt_ok (a : option bytes) (b : bytes) : bool := match a with Some r => bytes_eqb r b | None => true end."]
 
         def shard_src(dsh, esh, tsh):
             src = list(pre)
-            src.append("Definition dcases : list (Z * Z * Z * bytes) := [")
-            src.append(";\n".join("(%d, %d, %d, %s)" % (i, o["n"], o["L"], coq_bytes(bytes(o["res"]))) for i, o in dsh))
+            src.append("Definition dcases : list (Z * Z * Z * bytes * Z) := [")
+            src.append(";\n".join("(%d, %d, %d, %s, %d)" % (i, o["n"], o["L"], coq_bytes(bytes(o["res"])), 2 if o["k"] == "direct2" else 1) for i, o in dsh))
             src.append("].")
             # direct: the oracle is the spec applied with the *given* maxLen (eff_len only maps 0 to 60, so for
             # maxLen = 0 the direct call is outside the spec and only the model comparison applies)
             if gen_ok:
-                src.append("Definition bad_model := map (fun c => fst (fst (fst c))) (filter (fun c => match c with (i, n, L, r) => "
-                           "negb (obs_eq (truncateText (mk (Z.to_nat n)) L) r) end) dcases).")
+                src.append("Definition bad_model := map (fun c => fst (fst (fst (fst c)))) (filter (fun c => match c with (i, n, L, r, k) => "
+                           "negb (obs_eq (truncateText (mk k (Z.to_nat n)) L) r) end) dcases).")
             else:
                 src.append("Definition bad_model : list Z := [].")
-            src.append("Definition bad_oracle := map (fun c => fst (fst (fst c))) (filter (fun c => match c with (i, n, L, r) => "
-                       "if L =? 0 then false else negb (opt_ok (shown_oracle (mk (Z.to_nat n)) L) r) end) dcases).")
+            src.append("Definition bad_oracle := map (fun c => fst (fst (fst (fst c)))) (filter (fun c => match c with (i, n, L, r, k) => "
+                       "if L =? 0 then false else negb (opt_ok (shown_oracle (mk k (Z.to_nat n)) L) r) end) dcases).")
             src.append("Definition ecases : list (Z * bytes * Z * bytes * bytes * Z) := [")
             # message template is V=$x;W=$$;  -> shown(x) and shown(whole match)
             src.append(";\n".join("(%d, %s, %d, %s, %s, %s)" % (i, coq_bytes(o["text"].encode()), o["L"], coq_bytes(o["msg"].encode()),
@@ -185,7 +188,7 @@ def run(c):
         for i in bo:
             o = dcases[i]
             c.fail("oracle", "truncateText result contradicts the C15 specification",
-                   input={"text": "bytes 0..%d" % (o["n"] - 1), "n": o["n"], "maxLen": o["L"]}, observed=o["res"][:200],
+                   input={"text": ("bytes 0..%d" % (o["n"] - 1)) if o["k"] == "direct" else "first n bytes of the repeated UTF-8 text a\u00e9\u4e16\U0001F600b", "n": o["n"], "maxLen": o["L"]}, observed=o["res"][:200],
                    expected="unchanged if n<=maxLen, else prefix+<...>+suffix of total length maxLen")
         for i in be:
             o = ecases[i]
@@ -215,7 +218,7 @@ def run(c):
                 s["res"] = s["res"][:24]
             c.sample(s)
 
-    maxn, maxl, nrand = (40, 48, 24) if not thorough else (140, 140, 400)
+    maxn, maxl, nrand = (30, 38, 16) if not thorough else (110, 120, 300)
     compare(observe(maxn, maxl, nrand, c.seed), "main")
 
     def search():
